@@ -73,4 +73,10 @@ PROPS = {
         quick=dict(runs=[dict(tests="^TestC10$", checks=500)], min_nontrivial=60),
         thorough=dict(runs=[dict(tests="^TestC10$", checks=3000, shards=16, timeout=3000)], min_nontrivial=5000),
     ),
+    "C06": dict(
+        rule="conflict-rich fresh-sync worlds (ingresses with creation-time ties setting different values of backend-scoped keys on shared services, host-scoped keys app-root / redirect-from / auth-tls / ciphers on shared hosts, oauth with several candidate /oauth2 paths, duplicated paths, basic auth sharing userlists); each world is synced 6 times by independent controller instances: a reference run, three runs with the List results of every kind and the order of the initial events permuted by generated permutations, and two plain repetitions (Go re-randomises map iteration); all behavioural normal forms must be identical. Non-trivial = the reference run logged a conflict / already / redeclared warning; distinct by digest of world and permutations.",
+        assumptions=HAPCFG_ASSUMPTIONS + ["non-determinism from hash-map order is found probabilistically (6 independent runs per world)", "requests with no documented winner (same path declared with both non-exact types) are exempt"],
+        quick=dict(runs=[dict(tests="^TestC06$", checks=120)], min_nontrivial=30),
+        thorough=dict(runs=[dict(tests="^TestC06$", checks=500, shards=16, timeout=3000)], min_nontrivial=1500),
+    ),
 }
